@@ -189,3 +189,7 @@ mod tests {
         }
     }
 }
+
+#[cfg(discret_verif)]
+#[path = "/verif/hooks/room_locking_service.rs"]
+pub(crate) mod verif_hook;
